@@ -15,6 +15,8 @@ import (
 	cmtproto "github.com/cometbft/cometbft/proto/tendermint/types"
 	cmttypes "github.com/cometbft/cometbft/types"
 	sdk "github.com/cosmos/cosmos-sdk/types"
+	"github.com/ethereum/go-ethereum/beacon/engine"
+	"github.com/ethereum/go-ethereum/common"
 	goatxtypes "github.com/goatnetwork/goat/x/goat/types"
 )
 
@@ -122,6 +124,8 @@ type StepOpts struct {
 	Prop     int // 1-based index of the proposing validator (must run a node); 0 = default
 	// Mutate may replace the proposal's transactions after PrepareProposal (C06/C08 hostile proposals).
 	Mutate func(txs [][]byte) [][]byte
+	// AfterPrepare runs once the proposal is assembled, before any node processes it (hostile proposal rounds).
+	AfterPrepare func(prop int, h int64, t time.Time, txs [][]byte, lc abci.CommitInfo)
 	// NoProcess skips ProcessProposal (forces a proposal into FinalizeBlock).
 	NoProcess bool
 	// BeforeFinalize runs after ProcessProposal and before FinalizeBlock.
@@ -233,6 +237,12 @@ func (c *Chain) Step(o StepOpts) (*Block, error) {
 	if o.Mutate != nil {
 		txs = o.Mutate(txs)
 	}
+	if len(txs) > 16 {
+		return nil, &ErrRejected{Height: h, Node: prop, Err: fmt.Errorf("honest proposal has %d transactions (cap 16)", len(txs))}
+	}
+	if o.AfterPrepare != nil {
+		o.AfterPrepare(prop, h, t, txs, lc)
+	}
 	if !o.NoProcess {
 		for i, n := range c.Nodes {
 			if n == nil {
@@ -244,6 +254,11 @@ func (c *Chain) Step(o StepOpts) (*Block, error) {
 			}
 		}
 	}
+	return c.FinalizeAndCommit(prop, h, t, txs, lc, o)
+}
+
+// FinalizeAndCommit executes an already agreed proposal on every node, commits and advances.
+func (c *Chain) FinalizeAndCommit(prop int, h int64, t time.Time, txs [][]byte, lc abci.CommitInfo, o StepOpts) (*Block, error) {
 	if o.BeforeFinalize != nil {
 		o.BeforeFinalize()
 	}
@@ -452,3 +467,36 @@ func shortStack() string {
 	}
 	return strings.Join(keep, "\n")
 }
+
+// PayloadED converts a consensus payload into engine data (harness-side, independent of x/goat/types).
+func PayloadED(p *goatxtypes.ExecutionPayload) *engine.ExecutableData {
+	blob, excess := p.BlobGasUsed, p.ExcessBlobGas
+	txs := p.Transactions
+	if txs == nil {
+		txs = [][]byte{}
+	}
+	return &engine.ExecutableData{
+		ParentHash: common.BytesToHash(p.ParentHash), FeeRecipient: common.BytesToAddress(p.FeeRecipient), StateRoot: common.BytesToHash(p.StateRoot),
+		ReceiptsRoot: common.BytesToHash(p.ReceiptsRoot), LogsBloom: p.LogsBloom, Random: common.BytesToHash(p.PrevRandao), Number: p.BlockNumber,
+		GasLimit: p.GasLimit, GasUsed: p.GasUsed, Timestamp: p.Timestamp, ExtraData: p.ExtraData, BaseFeePerGas: p.BaseFeePerGas.BigInt(),
+		BlockHash: common.BytesToHash(p.BlockHash), Transactions: txs, BlobGasUsed: &blob, ExcessBlobGas: &excess,
+	}
+}
+
+// Rehash recomputes the payload's block hash so that the (fake) execution client finds it consistent.
+func Rehash(p *goatxtypes.ExecutionPayload) {
+	p.BlockHash = BlockHashOf(PayloadED(p), common.BytesToHash(p.BeaconRoot), p.Requests).Bytes()
+}
+
+// BlockTx signs a MsgNewEthBlock transaction as validator prop would for height h.
+func (c *Chain) BlockTx(prop int, h int64, proposerField string, payload *goatxtypes.ExecutionPayload, extra ...sdk.Msg) ([]byte, error) {
+	num, seq, ok := c.Account(sdk.AccAddress(c.W.Vals[prop].Cons))
+	if !ok {
+		return nil, fmt.Errorf("no account for validator %d", prop)
+	}
+	msgs := append([]sdk.Msg{&goatxtypes.MsgNewEthBlock{Proposer: proposerField, Payload: payload}}, extra...)
+	return c.W.SignTx(TxSpec{Msgs: msgs, Priv: c.W.ValPriv(prop), AccNum: num, Seq: seq, Timeout: uint64(h), Gas: 100_000_000})
+}
+
+// ValAddrStr is the bech32 account address of validator i.
+func (w *World) ValAddrStr(i int) string { return sdk.AccAddress(w.Vals[i].Cons).String() }
